@@ -38,3 +38,8 @@ add("C15", "E1",
     "For every enumerated expression (folded, unfolded and deep-derived flat form) eval_vec and eval_iter must return exactly eval's symbolic result, which equals the reference; no moved-out placeholder inside the result; a variable occurring exactly once is not cloned; wrong lengths are errors.",
     "As C01; clone counting in the harness data type's Clone impl.",
     "DESIGN.md §3 C15")
+add("C04", "E1",
+    "exhaustive enumeration of variable-name occurrence sequences over a name universe chosen to separate orderings, all slice lengths, four expression forms, plus derived expressions over a pool",
+    "All occurrence sequences up to length 6 over 15 names (case, underscore, digits, Greek, braced names with blanks, digits, emoji, operator look-alikes, {a}=a) under three operator patterns; var_names must equal the BTreeSet order of the distinct names and the symbolic value must bind the n-th value to every occurrence of the n-th name; every slice length 0..n+2 through eval/eval_relaxed/eval_vec/eval_iter on flat, uncompiled, deep and deep-derived flat forms; 15-20 distinct variables; operator application, substitution and differentiation list the sorted union.",
+    "As C01; Rust string order = String::cmp.",
+    "DESIGN.md §3 C04")
